@@ -136,6 +136,41 @@ def _coords_group(cname, sname):
     return h_
 
 
+def _override_group(cname, sname):
+    @group('gamma.coordinates.override[%s,%s]' % (cname, sname), files=[GSF], functions=['GammaSurface.a12_to_xy', 'GammaSurface.xy_to_a12', 'GammaSurface.a12_to_pos'],
+           clause='%s cell, stored shift vectors %s: with OVERRIDING in-plane vectors a1vect, a2vect (not parallel to the stored first vector) fractional and plotting coordinates stay '
+                  'mutual inverses, the position is a1 U1 + a2 U2, the plotting map preserves lengths and puts x along the given first vector' % (cname, SHIFTS[sname]),
+           replay=_replay, timeout_ms=30000)
+    def h_(E, L):
+        mod = L.load(GSF)
+        core = L.resolve('atomman.core')
+        box = core.Box(vects=CELLS[cname])
+        g = object.__new__(mod.GammaSurface)
+        g.fit = lambda: None
+        a1v, a2v = SHIFTS[sname]
+        E.side_enabled = False
+        g.set(a1v, a2v, [0.0, 0.5], [0.0, 0.5], [0.0, 1.0], box=box)
+        V = box._Box__vects
+        p, q = E.real('p'), E.real('q')
+        E.canary('gamma.coordinates.override.canary[%s,%s]' % (cname, sname), p == q)
+        for tagv, kwv in (('sum_and_second', dict(a1vect=[a1v[i] + a2v[i] for i in range(3)], a2vect=list(a2v))), ('swapped', dict(a1vect=list(a2v), a2vect=list(a1v)))):
+            xa, ya = g.a12_to_xy(p, q, **kwv)
+            c1, c2 = g.xy_to_a12(xa, ya, **kwv)
+            E.prove('xy_to_a12(a12_to_xy).identity[%s]' % tagv, And(c1 == p, c2 == q))
+            U1 = [Sym(tm.to_real(_t(sum(kwv['a1vect'][i] * V[i, j] for i in range(3))))) for j in range(3)]
+            U2 = [Sym(tm.to_real(_t(sum(kwv['a2vect'][i] * V[i, j] for i in range(3))))) for j in range(3)]
+            posv = g.a12_to_pos(p, q, **kwv)
+            for j in range(3):
+                E.prove('a12_to_pos.with_vectors[%s][%d]' % (tagv, j), posv[0, j] == p * U1[j] + q * U2[j])
+            E.prove('a12_to_xy.preserves_length[%s]' % tagv, xa * xa + ya * ya == dot3(posv[0], posv[0]))
+            E.prove('a12_to_xy.x_along_first_given_vector[%s]' % tagv, xa * snp.sqrt(dot3(U1, U1)) == dot3(posv[0], U1))
+    return h_
+
+
+for _cn, _sn in (('cubic', 'rect'),):
+    _override_group(_cn, _sn)
+
+
 def _t(x):
     from pyvc.sym import lift
     return x.t if isinstance(x, Sym) else lift(x)
@@ -403,6 +438,25 @@ def gamma_family(tier, seed):
                     msgs.append('query by plotting coordinates differs from the fractional query')
             except Exception as e:
                 msgs.append('query by several Cartesian / plotting positions raised %s: %s' % (type(e).__name__, e))
+            # the same points addressed relative to alternate in-plane vectors (fractional, Cartesian and plotting forms must agree with each other and with the plain query)
+            try:
+                u1 = [g.a1vect[i] + g.a2vect[i] for i in range(3)]
+                u2 = list(g.a2vect)
+                posq = g.a12_to_pos(q1, q2)
+                f1, f2 = g.pos_to_a12(posq, a1vect=u1, a2vect=u2)
+                e_frac = g.E_gsf(a1=np.array(f1).copy(), a2=np.array(f2).copy(), a1vect=u1, a2vect=u2)
+                e_pos = g.E_gsf(pos=posq, a1vect=u1, a2vect=u2)
+                xo, yo = g.a12_to_xy(np.array(f1), np.array(f2), a1vect=u1, a2vect=u2)
+                e_xy = g.E_gsf(x=xo, y=yo, a1vect=u1, a2vect=u2)
+                tolE = 1e-7 * abs(Eg).max()
+                if not (np.allclose(e_frac, base, atol=tolE) and np.allclose(e_pos, base, atol=tolE) and np.allclose(e_xy, base, atol=tolE)):
+                    msgs.append('with alternate vectors %r, %r the same points give energies differing from the plain query by %.3g (fractional), %.3g (Cartesian), %.3g (plotting)'
+                                % (u1, u2, abs(np.asarray(e_frac) - base).max(), abs(np.asarray(e_pos) - base).max(), abs(np.asarray(e_xy) - base).max()))
+                b1, b2 = g.xy_to_a12(xo, yo, a1vect=u1, a2vect=u2)
+                if not (np.allclose(b1, f1, atol=1e-9) and np.allclose(b2, f2, atol=1e-9)):
+                    msgs.append('xy_to_a12(a12_to_xy(.)) with alternate vectors is not the identity (max deviation %.3g)' % max(abs(np.asarray(b1) - f1).max(), abs(np.asarray(b2) - f2).max()))
+            except Exception as e:
+                msgs.append('queries with alternate vectors raised %s: %s' % (type(e).__name__, e))
             g2_ = am.defect.GammaSurface(model=g.model())
             if not np.allclose(g2_.E_gsf(a1=q1.copy(), a2=q2.copy()), base, atol=1e-7 * abs(Eg).max()):
                 msgs.append('data-model round trip changes the energies')
